@@ -15,7 +15,7 @@ from hypothesis import strategies as st
 from harness.core import HarnessError
 from harness.hyp import drive
 from gens import jwsplan as jp, keys as gk
-from gens.jose import ALL_JWS, exc_key
+from gens.jose import ALL_JWS, exc_key, jkey
 from gens.spelling import spelling
 from ref import b64 as rb, jws as rjws, keys as rk, selftest
 
@@ -151,9 +151,11 @@ def _keyarg(plan, keymode):
     return v
 
 
-def judge(entry, token, plan, keymode, payload_arg=None, none_allowed=False, other_token=None):
+def judge(entry, token, plan, keymode, payload_arg=None, none_allowed=False, other_token=None, keyarg_override=None):
     """None = joserfc rejected (fine for a faulted token). Otherwise (kind, text) of the violation or 'ok'."""
     keyarg, kr = _keyarg(plan, keymode)
+    if keyarg_override is not None:
+        keyarg = keyarg_override
     try:
         got_payload, got_prot, is_claims = call_entry(entry, token, keyarg, payload_arg, other_token)
     except Exception:
@@ -577,6 +579,57 @@ def run_fault(case, mplan, keymode, token, token2, fault, entry):
         nk = other_key(p2["members"][i], case["otherkey_seed"] + fault.get("variant", 0))
         p2["members"][i]["key"] = gk.key_to_record(nk)
         return judge(entry, token, p2, keymode, payload)
+    if fault["kind"] == "keysub-inplace":
+        # a long-lived key set: the token is verified once, then the entry of the set that holds its key is REPLACED in place by
+        # another key under the same kid (rotation); the old token must no longer verify
+        from joserfc.jwk import KeySet
+        ks, _ = _keyarg(mplan, keymode)
+        if not isinstance(ks, KeySet):
+            return "n/a"
+        if judge(entry, token, mplan, keymode, payload) != "ok":
+            return "n/a"
+        i = fault["i"] % len(mplan["members"])
+        kid = jp._kids(mplan)[i]
+        j = next((n for n, k in enumerate(ks.keys) if k.kid == kid), None)
+        if j is None:
+            return "n/a"
+        p2 = copy.deepcopy(mplan)
+        nk = other_key(p2["members"][i], case["otherkey_seed"] + 3)
+        p2["members"][i]["key"] = gk.key_to_record(nk)
+        old = ks.keys[j]
+        ks.keys[j] = jkey(nk if nk["kty"] == "oct" else rk.public_of(nk), "dict", nk["kty"] == "oct", {"kid": kid})
+        try:
+            return judge(entry, token, p2, keymode, payload, keyarg_override=ks)
+        finally:
+            ks.keys[j] = old
+    if fault["kind"] == "pss-salt":
+        # the same token re-signed by the reference key holder with RSASSA-PSS but another salt length: not a PS256/384/512 signature
+        from Crypto.Signature import pss
+        i = fault["i"] % len(mplan["members"])
+        m = mplan["members"][i]
+        if not m["alg"].startswith("PS"):
+            return "n/a"
+        h = rjws.HASHES[m["alg"][2:]][1]
+        k = rjws._rsa(gk.key_from_record(m["key"]), True)
+        if isinstance(token, (str, bytes)):
+            t = token if isinstance(token, str) else token.decode("ascii", "ignore")
+            parts = t.split(".")
+            if len(parts) != 3:
+                return "n/a"
+            try:
+                sig = pss.new(k, salt_bytes=fault["salt"]).sign(h.new((parts[0] + "." + parts[1]).encode()))
+            except ValueError:
+                return "n/a"
+            ft = ".".join([parts[0], parts[1], rb.encode(sig)])
+        else:
+            ft = copy.deepcopy(token)
+            ent = ft["signatures"][i] if "signatures" in ft else ft
+            try:
+                sig = pss.new(k, salt_bytes=fault["salt"]).sign(h.new((ent.get("protected", "") + "." + ft["payload"]).encode()))
+            except ValueError:
+                return "n/a"
+            ent["signature"] = rb.encode(sig)
+        return judge(entry, ft, mplan, keymode, payload)
     if fault["kind"] == "base":
         return judge(entry, token, mplan, keymode, payload, other_token=token2 if isinstance(token2, (str, bytes)) else None)
     ft = apply_fault(token, token2, fault, mplan["b64"] is False)
@@ -666,6 +719,19 @@ def run_shard(ctx, spec):
                         ctx.case((label, e, fault), cls=f"fault:{fc}")
                         if r2 not in (None, "ok", "n/a"):
                             ctx.finding(finding_key(mplan, fault, r2[0]), r2[1], {"case": case, "fault": fault, "entry": e, "token": token, "token2": token2})
+        # key rotation inside a long-lived key set, PSS signatures with a foreign salt length
+        for i in range(len(mplan["members"])):
+            more = [{"kind": "keysub-inplace", "i": i}] + ([{"kind": "pss-salt", "i": i, "salt": s_} for s_ in (0, 20, 33, 64)] if algs[i].startswith("PS") else [])
+            for fault in more:
+                for e in ents:
+                    if e.startswith("jwt.decode") or e.endswith(("+again", "+otherpayload", "+registry")):
+                        continue
+                    r = run_fault(case, mplan, keymode, token, token2, fault, e)
+                    if r == "n/a":
+                        continue
+                    ctx.case((label, e, json.dumps(fault, sort_keys=True)), cls=[f"fault:{fault['kind']}"])
+                    if r not in (None, "ok"):
+                        ctx.finding(f"C01:{fault['kind']}:{mplan['ser']}:{algs[i][:2]}:{r[0]}", r[1], {"case": case, "fault": fault, "entry": e, "token": token, "token2": token2})
         # key substitution
         for i in range(len(mplan["members"])):
             for variant in (0, 1):
@@ -704,7 +770,7 @@ def replay(rec) -> dict:
         return {}
     if r in (None, "ok", "n/a"):
         return {}
-    if fault["kind"] == "keysub":
+    if fault["kind"] in ("keysub", "keysub-inplace", "pss-salt"):
         algs = [m["alg"] for m in mplan["members"]]
-        return {f"C01:keysub:{mplan['ser']}:{algs[fault['i'] % len(algs)][:2]}:{r[0]}": r[1]}
+        return {f"C01:{fault['kind']}:{mplan['ser']}:{algs[fault['i'] % len(algs)][:2]}:{r[0]}": r[1]}
     return {finding_key(mplan, fault, r[0]): r[1]}
